@@ -7,12 +7,19 @@ package main
 //	                           ProviderBase.idCounter is a sync/atomic.Uint64 that only NextID touches, by `Add(1)`
 //	slice<Func>                the SAMPLE-RELEVANT SLICE of every function that creates, fills or reports a sample:
 //	                           the statements that call Report / SetProtoCode / SetErr / AddTag / SetID / Acquire / autotag /
-//	                           NextID / NewGunAmmo / ConvertGrpcStatus / reportErr / shoot / shootStep / Panic, or assign one
-//	                           of the variables err, code, sample, tag, grpcErr, plus every return, every defer of a closure
-//	                           and the if/for/switch headers that enclose any of these.  Statements about logging, tracing,
-//	                           dumping, templating and timing are NOT part of a slice, so reordering or editing them does not
-//	                           change it; adding, removing, moving or re-guarding a statement that decides how many samples
-//	                           are reported or what they carry does.
+//	                           NextID / NewGunAmmo / ConvertGrpcStatus / reportErr / shoot / shootStep / Panic, or assign a
+//	                           TRACKED local variable, plus every return, every defer of a closure and the if/for/switch
+//	                           headers that enclose any of these.  Tracked variables are found by what they are, not by
+//	                           their names: locals of type *netsample.Sample, locals handed as a bare identifier to one of
+//	                           the calls above (the code, the tag, the error), and — to a fixed point — locals read by the
+//	                           condition of a header the slice keeps (a backward slice over control dependence).
+//	                           Function-local identifiers (receiver, parameters, variables, constants) are printed as
+//	                           v1, v2 ... in order of first appearance in the slice, and a run of consecutive setter calls
+//	                           on one sample with pairwise different setters (they write different fields) is printed in
+//	                           a canonical order.  So: renaming locals, reordering independent setter calls, and adding,
+//	                           editing or moving statements about logging, tracing, dumping, templating and timing do NOT
+//	                           change a slice; adding, removing, moving or re-guarding a statement that decides how many
+//	                           samples are reported or what they carry does.
 //
 // Bridge lemmas (lean/Pandora/Bridge/GrpcStatus.lean) compare every slice with the text the model was written against.
 
@@ -24,6 +31,7 @@ import (
 	"go/types"
 	"os"
 	"path/filepath"
+	"reflect"
 	"regexp"
 	"sort"
 	"strings"
@@ -204,17 +212,201 @@ func gsIDCounter(t *tr, b *strings.Builder) {
 var gsSliceCalls = map[string]bool{"Report": true, "SetProtoCode": true, "SetErr": true, "AddTag": true, "SetID": true, "Acquire": true,
 	"autotag": true, "NextID": true, "NewGunAmmo": true, "ConvertGrpcStatus": true, "reportErr": true, "shoot": true, "shootStep": true,
 	"Panic": true, "panic": true, "SetUserProto": true, "SetUserNet": true}
-var gsSliceVars = map[string]bool{"err": true, "code": true, "sample": true, "tag": true, "grpcErr": true}
+
+// gsLocalRef is one occurrence of a function-local object (receiver, parameter, result, local variable or constant) in
+// the source text.
+type gsLocalRef struct {
+	pos, end int // file offsets
+	obj      types.Object
+}
 
 type gsSlicer struct {
 	p *packages.Package
+	// locals: every identifier inside the function that denotes an object declared inside it, by file offset
+	locals []gsLocalRef
+	// index of a local object (placeholder number)
+	localIdx map[types.Object]int
+	// tracked: the local variables whose assignments belong to the slice. Start: variables of type *netsample.Sample and
+	// variables handed (as a bare identifier) to one of gsSliceCalls; closed under "is read by the header of an if / for /
+	// switch that the slice keeps" (a backward slice over control dependence, local variables only). Names play no role.
+	tracked map[types.Object]bool
+	// condVars: local variables read by the headers kept in the current pass
+	condVars map[types.Object]bool
 }
 
+func gsNewSlicer(p *packages.Package, fd *ast.FuncDecl) *gsSlicer {
+	s := &gsSlicer{p: p, localIdx: map[types.Object]int{}, tracked: map[types.Object]bool{}, condVars: map[types.Object]bool{}}
+	inside := func(o types.Object) bool {
+		if o == nil || !o.Pos().IsValid() {
+			return false
+		}
+		switch o.(type) {
+		case *types.Var, *types.Const:
+		default:
+			return false
+		}
+		if v, ok := o.(*types.Var); ok && v.IsField() {
+			return false
+		}
+		return o.Pos() >= fd.Pos() && o.Pos() < fd.End()
+	}
+	ast.Inspect(fd, func(n ast.Node) bool {
+		id, ok := n.(*ast.Ident)
+		if !ok || id.Name == "_" {
+			return true
+		}
+		o := p.TypesInfo.Defs[id]
+		if o == nil {
+			o = p.TypesInfo.Uses[id]
+		}
+		if !inside(o) {
+			return true
+		}
+		if _, seen := s.localIdx[o]; !seen {
+			s.localIdx[o] = len(s.localIdx)
+		}
+		s.locals = append(s.locals, gsLocalRef{p.Fset.Position(id.Pos()).Offset, p.Fset.Position(id.End()).Offset, o})
+		return true
+	})
+	sort.Slice(s.locals, func(i, j int) bool { return s.locals[i].pos < s.locals[j].pos })
+	// initial tracked set
+	for o := range s.localIdx {
+		if v, ok := o.(*types.Var); ok && gsIsSamplePtr(v.Type()) {
+			s.tracked[o] = true
+		}
+	}
+	ast.Inspect(fd, func(n ast.Node) bool {
+		call, ok := n.(*ast.CallExpr)
+		if !ok || !gsIsSliceCall(call) || gsIsHopCall(call) {
+			return true
+		}
+		for _, a := range call.Args {
+			if id, ok := a.(*ast.Ident); ok {
+				if o := p.TypesInfo.Uses[id]; o != nil {
+					if _, local := s.localIdx[o]; local {
+						s.tracked[o] = true
+					}
+				}
+			}
+		}
+		return true
+	})
+	return s
+}
+
+func gsIsSamplePtr(t types.Type) bool {
+	pt, ok := t.(*types.Pointer)
+	if !ok {
+		return false
+	}
+	n, ok := pt.Elem().(*types.Named)
+	return ok && n.Obj().Name() == "Sample" && n.Obj().Pkg() != nil && strings.HasSuffix(n.Obj().Pkg().Path(), "core/aggregator/netsample")
+}
+
+// gsIsHopCall: calls that only lead on to another sliced function (or end the program): what they are handed does not
+// make a variable sample-relevant by itself (a sample among the arguments is tracked by its type).
+func gsIsHopCall(v *ast.CallExpr) bool {
+	name := ""
+	switch f := v.Fun.(type) {
+	case *ast.SelectorExpr:
+		name = f.Sel.Name
+	case *ast.Ident:
+		name = f.Name
+	}
+	return name == "shoot" || name == "shootStep" || name == "Panic" || name == "panic"
+}
+
+func gsIsSliceCall(v *ast.CallExpr) bool {
+	switch f := v.Fun.(type) {
+	case *ast.SelectorExpr:
+		return gsSliceCalls[f.Sel.Name]
+	case *ast.Ident:
+		return gsSliceCalls[f.Name]
+	}
+	return false
+}
+
+// text: the source text of the node, whitespace normalised, every function-local identifier replaced by the placeholder
+// \x01<n>\x02 of its object (gsCanonLocals turns them into v1, v2 ... in order of first appearance in the slice).
 func (s *gsSlicer) text(n ast.Node) string {
-	return strings.Join(strings.Fields(nodeString(s.p, n)), " ")
+	if n == nil {
+		return ""
+	}
+	start := s.p.Fset.Position(n.Pos())
+	end := s.p.Fset.Position(n.End())
+	src, err := os.ReadFile(start.Filename)
+	if err != nil || end.Offset > len(src) {
+		return ""
+	}
+	var b strings.Builder
+	at := start.Offset
+	i := sort.Search(len(s.locals), func(i int) bool { return s.locals[i].pos >= start.Offset })
+	for ; i < len(s.locals) && s.locals[i].end <= end.Offset; i++ {
+		r := s.locals[i]
+		if r.pos < at {
+			continue
+		}
+		b.Write(src[at:r.pos])
+		fmt.Fprintf(&b, "\x01%d\x02", s.localIdx[r.obj])
+		at = r.end
+	}
+	b.Write(src[at:end.Offset])
+	return strings.Join(strings.Fields(b.String()), " ")
 }
 
-// relevant: the node (function literals included) calls one of gsSliceCalls or assigns/declares one of gsSliceVars.
+var gsPlaceholderRe = regexp.MustCompile("\x01([0-9]+)\x02")
+
+// gsCanonLocals numbers the local objects v1, v2 ... in order of first appearance in the lines.
+func gsCanonLocals(lines []string) []string {
+	names := map[string]string{}
+	out := make([]string, len(lines))
+	for i, l := range lines {
+		out[i] = gsPlaceholderRe.ReplaceAllStringFunc(l, func(m string) string {
+			if n, ok := names[m]; ok {
+				return n
+			}
+			n := fmt.Sprintf("v%d", len(names)+1)
+			names[m] = n
+			return n
+		})
+	}
+	return out
+}
+
+func (s *gsSlicer) localOf(id *ast.Ident) types.Object {
+	o := s.p.TypesInfo.Defs[id]
+	if o == nil {
+		o = s.p.TypesInfo.Uses[id]
+	}
+	if o == nil {
+		return nil
+	}
+	if _, ok := s.localIdx[o]; !ok {
+		return nil
+	}
+	return o
+}
+
+// noteCond records the local variables a kept header reads.
+func (s *gsSlicer) noteCond(nodes ...ast.Node) {
+	for _, n := range nodes {
+		if n == nil || reflect.ValueOf(n).IsNil() {
+			continue
+		}
+		ast.Inspect(n, func(x ast.Node) bool {
+			if id, ok := x.(*ast.Ident); ok {
+				if o := s.localOf(id); o != nil {
+					if _, isVar := o.(*types.Var); isVar {
+						s.condVars[o] = true
+					}
+				}
+			}
+			return true
+		})
+	}
+}
+
+// relevant: the node (function literals included) calls one of gsSliceCalls or assigns/declares a tracked variable.
 func (s *gsSlicer) relevant(n ast.Node) bool {
 	if n == nil {
 		return false
@@ -226,25 +418,26 @@ func (s *gsSlicer) relevant(n ast.Node) bool {
 		}
 		switch v := x.(type) {
 		case *ast.CallExpr:
-			switch f := v.Fun.(type) {
-			case *ast.SelectorExpr:
-				if gsSliceCalls[f.Sel.Name] {
-					found = true
-				}
-			case *ast.Ident:
-				if gsSliceCalls[f.Name] {
-					found = true
-				}
+			if gsIsSliceCall(v) {
+				found = true
 			}
 		case *ast.AssignStmt:
 			for _, l := range v.Lhs {
-				if id, ok := l.(*ast.Ident); ok && gsSliceVars[id.Name] {
-					found = true
+				if id, ok := l.(*ast.Ident); ok {
+					if o := s.localOf(id); o != nil && s.tracked[o] {
+						found = true
+					}
 				}
 			}
 		case *ast.ValueSpec:
 			for _, id := range v.Names {
-				if gsSliceVars[id.Name] {
+				if o := s.localOf(id); o != nil && s.tracked[o] {
+					found = true
+				}
+			}
+		case *ast.IncDecStmt:
+			if id, ok := v.X.(*ast.Ident); ok {
+				if o := s.localOf(id); o != nil && s.tracked[o] {
 					found = true
 				}
 			}
@@ -256,10 +449,63 @@ func (s *gsSlicer) relevant(n ast.Node) bool {
 	return found
 }
 
+// gsSetterOf: `<tracked sample variable>.<Setter>(...)` as an expression statement: (variable, setter name).
+var gsSetters = map[string]bool{"SetProtoCode": true, "SetErr": true, "AddTag": true, "SetID": true, "SetUserProto": true, "SetUserNet": true}
+
+func (s *gsSlicer) setterOf(st ast.Stmt) (types.Object, string) {
+	es, ok := st.(*ast.ExprStmt)
+	if !ok {
+		return nil, ""
+	}
+	call, ok := es.X.(*ast.CallExpr)
+	if !ok {
+		return nil, ""
+	}
+	sel, ok := call.Fun.(*ast.SelectorExpr)
+	if !ok || !gsSetters[sel.Sel.Name] {
+		return nil, ""
+	}
+	id, ok := sel.X.(*ast.Ident)
+	if !ok {
+		return nil, ""
+	}
+	o := s.localOf(id)
+	if o == nil {
+		return nil, ""
+	}
+	return o, sel.Sel.Name
+}
+
+// stmts: the slice of a statement list. A run of consecutive setter calls on the same sample with pairwise different
+// setters (AddTag / SetProtoCode / SetID / SetErr write different fields: they commute) is printed in a canonical order,
+// so that reordering such independent statements does not change the slice.
 func (s *gsSlicer) stmts(list []ast.Stmt, ind string) []string {
 	var out []string
-	for _, st := range list {
-		out = append(out, s.stmt(st, ind)...)
+	for i := 0; i < len(list); {
+		o, name := s.setterOf(list[i])
+		if o == nil {
+			out = append(out, s.stmt(list[i], ind)...)
+			i++
+			continue
+		}
+		j := i
+		seen := map[string]bool{}
+		var run []string
+		for j < len(list) {
+			o2, n2 := s.setterOf(list[j])
+			if o2 != o || seen[n2] {
+				break
+			}
+			seen[n2] = true
+			run = append(run, n2+"\x00"+ind+s.text(list[j]))
+			j++
+		}
+		_ = name
+		sort.Strings(run)
+		for _, r := range run {
+			out = append(out, r[strings.IndexByte(r, 0)+1:])
+		}
+		i = j
 	}
 	return out
 }
@@ -294,6 +540,7 @@ func (s *gsSlicer) stmt(st ast.Stmt, ind string) []string {
 			// a guard without sample-relevant content; its init may still assign a tracked variable that lives on
 			return nil
 		}
+		s.noteCond(v.Cond)
 		hdr := "if "
 		if v.Init != nil {
 			hdr += s.text(v.Init) + "; "
@@ -310,6 +557,7 @@ func (s *gsSlicer) stmt(st ast.Stmt, ind string) []string {
 		if len(body) == 0 {
 			return nil
 		}
+		s.noteCond(v.Cond)
 		hdr := "for"
 		if v.Init != nil || v.Cond != nil || v.Post != nil {
 			hdr += " " + s.text(v.Init) + "; " + s.text(v.Cond) + "; " + s.text(v.Post)
@@ -320,6 +568,7 @@ func (s *gsSlicer) stmt(st ast.Stmt, ind string) []string {
 		if len(body) == 0 {
 			return nil
 		}
+		s.noteCond(v.X)
 		hdr := "for "
 		if v.Key != nil {
 			hdr += s.text(v.Key)
@@ -331,9 +580,17 @@ func (s *gsSlicer) stmt(st ast.Stmt, ind string) []string {
 		hdr += "range " + s.text(v.X) + " {"
 		return append(append([]string{ind + hdr}, body...), ind+"}")
 	case *ast.SwitchStmt:
-		return s.switchLike("switch "+s.text(v.Init)+"; "+s.text(v.Tag), v.Body, ind)
+		r := s.switchLike("switch "+s.text(v.Init)+"; "+s.text(v.Tag), v.Body, ind)
+		if len(r) > 0 {
+			s.noteCond(v.Tag)
+		}
+		return r
 	case *ast.TypeSwitchStmt:
-		return s.switchLike("switch "+s.text(v.Init)+"; "+s.text(v.Assign), v.Body, ind)
+		r := s.switchLike("switch "+s.text(v.Init)+"; "+s.text(v.Assign), v.Body, ind)
+		if len(r) > 0 {
+			s.noteCond(v.Assign)
+		}
+		return r
 	case *ast.SelectStmt:
 		var out []string
 		for _, c := range v.Body.List {
@@ -391,7 +648,7 @@ func (s *gsSlicer) switchLike(hdr string, body *ast.BlockStmt, ind string) []str
 
 type gsSliceSpec struct {
 	pkg, recv, fn, lean string
-	full              bool // the whole body, normalised, instead of the slice
+	full                bool // the whole body, normalised, instead of the slice
 }
 
 func gsSlices(t *tr, b *strings.Builder) {
@@ -443,15 +700,30 @@ func gsSlices(t *tr, b *strings.Builder) {
 			continue
 		}
 		rel, _ := filepath.Rel(repo, p.Fset.Position(fd.Pos()).Filename)
-		sl := &gsSlicer{p: p}
+		sl := gsNewSlicer(p, fd)
 		var lines []string
-		kind := "sample-relevant slice"
+		kind := "sample-relevant slice (locals numbered in order of appearance)"
 		if sp.full {
-			kind = "whole body (one statement per entry, whitespace normalised)"
+			kind = "whole body (one statement per entry, whitespace normalised, locals numbered in order of appearance)"
 			lines = gsFullBody(sl, fd.Body.List, "")
 		} else {
-			lines = sl.stmts(fd.Body.List, "")
+			// fixed point: the variables read by the headers the slice keeps are tracked too
+			for iter := 0; iter < 20; iter++ {
+				sl.condVars = map[types.Object]bool{}
+				lines = sl.stmts(fd.Body.List, "")
+				grew := false
+				for o := range sl.condVars {
+					if !sl.tracked[o] {
+						sl.tracked[o] = true
+						grew = true
+					}
+				}
+				if !grew {
+					break
+				}
+			}
 		}
+		lines = gsCanonLocals(lines)
 		b.WriteString(fmt.Sprintf("/-- %s of `%s` in `%s` -/\ndef %s : List String := %s\n\n", kind, name, rel, sp.lean, gsLeanStrList(lines, "  ")))
 	}
 	_ = token.NoPos
